@@ -28,17 +28,23 @@ SameButRank(a, b) == /\ a.world = b.world /\ a.skip = b.skip /\ a.limit = b.limi
                      /\ a.shuffle = b.shuffle /\ a.sort = b.sort /\ a.prefetch = b.prefetch
                      /\ a.batch_limit = b.batch_limit /\ a.ltype = b.ltype
 
+\* Lines that cannot be parsed (r.bad, keys <<file, line>>) are dropped by the loader *after* the index selection: they keep
+\* their place in the enumeration.  With such lines the global order cannot be read off the reference run; it is the
+\* MultiGen order of the files (sequential / interleaved only).
 JudgeWith(r, G) ==
-    LET N == Len(G)
-        gk == Keys(G)
+    LET badKeys == IF "bad" \in DOMAIN r THEN {<<r.bad[k][1], r.bad[k][2]>> : k \in 1..Len(r.bad)} ELSE {}
+        ord == IF r.strategy = "sequential" THEN MG!Concat(r.lens) ELSE MG!RoundRobin(r.lens)
+        gk == IF badKeys = {} THEN Keys(G) ELSE [x \in 1..Len(ord) |-> <<ord[x][1] - 1, ord[x][2]>>]
+        N == Len(gk)
+        Good(s) == SelectSeq(s, LAMBDA key : key \notin badKeys)
         runs == r.runs
         R == 1..Len(runs)
-        pick(sel) == {gk[x + 1] : x \in sel}
-        procOf(key) == G[CHOOSE p \in 1..N : gk[p] = key]
+        pick(sel) == {gk[x + 1] : x \in sel} \ badKeys
+        procOf(key) == G[CHOOSE p \in 1..Len(G) : Key(G[p]) = key]
         known(run) == \A k \in 1..Len(Flat(run)) : Key(Flat(run)[k]) \in KeySet(G)
         allKnown == \A k \in R : known(runs[k])
         cl == <<
-          <<"items_come_from_the_files", allKnown /\ Cardinality(KeySet(G)) = N>>,
+          <<"items_come_from_the_files", allKnown /\ KeySet(G) = {gk[x] : x \in 1..N} \ badKeys /\ Cardinality(KeySet(G)) = Len(G)>>,
           <<"each_global_index_processed_identically",
               allKnown => \A k \in R : \A p \in 1..Len(Flat(runs[k])) :
                   LET it == Flat(runs[k])[p]  g == procOf(Key(it)) IN it.inp = g.inp /\ it.tid = g.tid /\ it.tgt = g.tgt>>,
@@ -56,7 +62,7 @@ JudgeWith(r, G) ==
               \A k \in R : runs[k].world = 1 =>
                   LET whole == L!SelectedSeq(N, runs[k].skip, runs[k].limit, 0, 0, 1)
                       rest == SubSeq(whole, L!Min2(runs[k].ff, Len(whole)) + 1, Len(whole))
-                      want == [x \in 1..Len(rest) |-> gk[rest[x] + 1]]
+                      want == Good([x \in 1..Len(rest) |-> gk[rest[x] + 1]])
                   IN IF runs[k].shuffle \/ runs[k].sort THEN KeySet(Flat(runs[k])) = {want[x] : x \in 1..Len(want)}
                      ELSE Keys(Flat(runs[k])) = want>>,
           <<"no_empty_batch", \A k \in R : \A b \in 1..Len(runs[k].batches) : runs[k].batches[b] # <<>>>>
@@ -64,10 +70,10 @@ JudgeWith(r, G) ==
         bad == SelectSeq(cl, LAMBDA x : ~x[2])
         exact == \A k \in R :
                     LET sel == L!SelectedSeq(N, runs[k].skip, runs[k].limit, runs[k].ff, runs[k].rank, runs[k].world)
-                        want == [x \in 1..Len(sel) |-> gk[sel[x] + 1]]
+                        want == Good([x \in 1..Len(sel) |-> gk[sel[x] + 1]])
                     IN IF runs[k].shuffle \/ runs[k].sort THEN KeySet(Flat(runs[k])) = {want[x] : x \in 1..Len(want)}
                        ELSE Keys(Flat(runs[k])) = want
-        order == r.strategy = "weighted" \/ [x \in 1..N |-> <<gk[x][1] + 1, gk[x][2]>>] = (IF r.strategy = "sequential" THEN MG!Concat(r.lens) ELSE MG!RoundRobin(r.lens))
+        order == r.strategy = "weighted" \/ badKeys # {} \/ [x \in 1..N |-> <<gk[x][1] + 1, gk[x][2]>>] = (IF r.strategy = "sequential" THEN MG!Concat(r.lens) ELSE MG!RoundRobin(r.lens))
         minItems == \A k \in R : runs[k].min_items = L!MinItems(N, runs[k].skip, runs[k].limit)
     IN [why |-> [k \in 1..Len(bad) |-> bad[k][1]],
         drift |-> (IF exact THEN <<>> ELSE <<"selection_differs_from_closed_form">>)
